@@ -42,6 +42,7 @@ Fixpoint upto (m : nat) : list nat := match m with O => [O] | S k => upto k ++ [
 
 Definition dispatch_model (name : Z) (s : sx) : sx :=
   match name with
+  | 45 => AllRun2.run_calls2 s     (* C17: the tracker calls the stage-2 engine model makes in one event *)
   | 44 => AllRun2.run_knot2 s      (* C18: hypotheses / conclusion of Knot2.knot2_is_permanent_in_scope on a real snapshot *)
   | 43 => AllRun.run_grid s        (* C20: hypotheses + conclusion of the DateSum grid theorems on one real event (stage 1) *)
   | 42 => AllRun2.run_grid2 s      (* C20: the same on stage 2 (DateSum2) *)
